@@ -63,7 +63,7 @@ func stdUniverse() *universe {
 			{name: long, kind: 'm'},
 			// leaves used by the reference burst of profile throttle (never picked at random)
 			{name: "c.n", kind: 'c'}, {name: "m.n1", kind: 'm'}, {name: "m.n2", kind: 'm'},
-			{name: "m.l1", kind: 'm'}, {name: "m.l2", kind: 'm'}, {name: "m.l3", kind: 'm'}, {name: "m.l4", kind: 'm'}, {name: "m.l5", kind: 'm'}, {name: "m.l6", kind: 'm'}, {name: "m.l7", kind: 'm'}, {name: "m.l8", kind: 'm'},
+			{name: "m.l1", kind: 'm'}, {name: "m.l2", kind: 'm'}, {name: "m.l3", kind: 'm'}, {name: "m.l4", kind: 'm'}, {name: "m.l5", kind: 'm'}, {name: "m.l6", kind: 'm'}, {name: "m.l7", kind: 'm'}, {name: "m.l8", kind: 'm'}, {name: "m.l9", kind: 'm'},
 			// a property name with a control character, next to a soft reference and a data value
 			// (what a legacy client's encoder has to quote): only the scripted legacy run asks for it
 			{name: "m.k", kind: 'm'},
@@ -75,7 +75,7 @@ func stdUniverse() *universe {
 			"m.r2e": "k1=r:m.err,k2=p4", "q.m?q=n1": "k1=p1", "q.m?q=n2": "k1=p2,k2=r:m.b", "q.c?q=n1": "p1,p2",
 			"q.c?q=n2": "p3", "q.d?q=n1": "k1=p4,k2=r:m.b", "q.d?q=n2": "k1=p5", "cid.{cid}.m": "k1=p9", long: "k1=p1", "m.pq": "k1=p1,k2=r:m.b",
 			"c.n": "p1", "m.n1": "k1=r:m.l1,k2=p1", "m.n2": "k1=r:m.l2,k2=r:m.l3",
-			"m.l1": "k1=p1", "m.l2": "k1=p2", "m.l3": "k1=p3", "m.l4": "k1=p4", "m.l5": "k1=p5", "m.l6": "k1=p6", "m.l7": "k1=p7", "m.l8": "k1=p8", "m.k": "a\x01b=p1,k2=s:m.b,k3=d3",
+			"m.l1": "k1=p1", "m.l2": "k1=p2", "m.l3": "k1=p3", "m.l4": "k1=p4", "m.l5": "k1=p5", "m.l6": "k1=p6", "m.l7": "k1=p7", "m.l8": "k1=p8", "m.l9": "k1=p9", "m.k": "a\x01b=p1,k2=s:m.b,k3=d3",
 		},
 	}
 	u.rids = []string{"m.a", "m.b", "m.c", "m.self", "c.a", "c.b", "m.err", "m.r2e", "q.m?q=a", "q.m?q=b", "q.m?q=c",
@@ -1349,6 +1349,66 @@ func (g *gen) resetBurstRun(limit int) {
 	}
 }
 
+// overlapResetRun: a second system reset (with two patterns matching the same resource) arrives
+// while the access re-validations of the first are outstanding or waiting in its throttle. Every
+// subscribing connection must be asked again by a request issued after the second reset — the
+// first reset's answer may be older than the second reset (C19: all governed requests are
+// eventually sent; C06: one re-request per trigger with a verdict that is not stale).
+func (g *gen) overlapResetRun() {
+	w := g.w
+	g.drain()
+	cs := g.liveClients()
+	if len(cs) == 0 || w.stall != "" {
+		return
+	}
+	g.kinds["overlap-reset-run"]++
+	rid := "m.l9"
+	for _, c := range cs {
+		w.request(c, "subscribe."+rid, "")
+	}
+	g.drain()
+	var subs []*wsClient
+	for _, c := range cs {
+		if !c.closed && c.ref != nil && c.ref.direct[rid] > 0 {
+			subs = append(subs, c)
+		}
+	}
+	if len(subs) == 0 || w.stall != "" {
+		return
+	}
+	w.publish("system.reset", `{"access":["m.l9"]}`)
+	mark := w.mq.lastID()
+	w.publish("system.reset", `{"access":["m.l9","m.>"]}`)
+	// newest first
+	for round := 0; round < 200; round++ {
+		rs := w.mq.outstanding()
+		if len(rs) == 0 || w.stall != "" {
+			break
+		}
+		g.answerOne(rs[len(rs)-1], true)
+	}
+	g.drain()
+	if w.stall != "" {
+		return
+	}
+	asked := map[string]bool{}
+	for _, l := range w.mq.fullLog() {
+		if l.kind == "req" && l.subject == "access."+rid && l.id > mark {
+			var p struct {
+				CID string `json:"cid"`
+			}
+			json.Unmarshal(l.payload, &p)
+			asked[p.CID] = true
+		}
+	}
+	for _, c := range subs {
+		if !c.closed && c.ref.direct[rid] > 0 && !asked[c.cid] {
+			w.addViolation("C19", "revalidation-never-requested", fmt.Sprintf("%s holds %s directly; no access request was issued for it after the second of two overlapping resets", c.name, rid))
+			w.addViolation("C06", "revalidation-never-requested", fmt.Sprintf("%s holds %s directly; no access request was issued for it after the second of two overlapping resets", c.name, rid))
+		}
+	}
+}
+
 // resetFailRun: a system reset re-fetches several resources under the reset throttle and some of
 // the re-fetches fail (timeout, error): every slot must be handed on, all resources are re-fetched.
 func (g *gen) resetFailRun() {
@@ -1550,6 +1610,11 @@ func runHistory(p profile, seed uint64, index int, keepSteps bool, wantSnap bool
 	}
 	for i := 0; i < p.steps && w.stall == ""; i++ {
 		g.step()
+	}
+	// (decided by a generator of its own, so that the random part above is the same with and
+	// without this scripted tail)
+	if p.name == "throttle" && cfg.resetThrottle > 0 && w.stall == "" && newRng(seed*977+uint64(index)*131+7).chance(1, 3) {
+		g.overlapResetRun()
 	}
 	// phase 2: drain, universal reset, drain, check
 	g.drain()
